@@ -28,7 +28,9 @@ func main() {
 		ctx.Finish("replay", nil)
 	}
 	if dir := os.Getenv("VERIF_CORPUS"); dir != "" {
-		txsim.RunCases(ctx, "C07", txsim.LoadCorpus(dir))
+		txs, chains := txsim.LoadCorpusAll(dir)
+		txsim.RunCases(ctx, "C07", txs)
+		txsim.RunChains(ctx, "C07", chains)
 	}
 	r := hx.NewRand(ctx.Seed)
 	n := ctx.Scale(2500, 60000)
